@@ -70,7 +70,7 @@ def dumpStr (s : St) : String :=
     (if s.bad then " BAD" else "")
 
 def filesStr (d : Disk) : String :=
-  let ds := d.data.map fun (id, rs) => (id, 0, s!"d{id}={fileSize rs}")
+  let ds := d.data.map fun (id, rs) => (id, 0, s!"d{id}={fileSize rs + (AL.get id d.tails).getD 0}")
   let hs := d.hint.map fun (id, h) => (id, 1, s!"h{id}={hintFileSize h}")
   let all := ((ds ++ hs).toArray.qsort fun a b => a.1 < b.1 || (a.1 == b.1 && a.2.1 < b.2.1)).toList
   joinOr (all.map (·.2.2)) " "
@@ -235,6 +235,40 @@ def storeStep (ss : SS) (toks : List String) : Option (SS × String) :=
             | _, _ => none
           | _ => none
       some (ss, openImage ss.keys (truncImage (imageOf ss.trace i b) trs))
+    | _, _ => none
+  | ["restore", i, b] =>
+    -- continue from the directory a crash at cut (i, b) leaves behind (next request: `open`)
+    match i.toNat?, b.toNat? with
+    | some i, some b =>
+      let base := ss.trace.take i
+      let part : List Call := if b > 0 then
+        (match ss.trace[i]? with
+         | some (.append f p) => [Call.append f (.raw ((encPayload p).take b))]
+         | _ => []) else []
+      let tr := base ++ part
+      match (imageOf tr tr.length 0).toDisk with
+      | some d => some ({ ss with trace := tr, st := { disk := d }, opened := false }, "ok")
+      | none => some (ss, "restore-error")
+    | _, _ => none
+  | ["d3cut", i, b] =>
+    -- D3 classification for a cut: keys whose last tombstone (in the calls completed before the
+    -- cut) sits in a file that has since been unlinked, with no later value written
+    match i.toNat?, b.toNat? with
+    | some i, some _ =>
+      let pre := (ss.trace.take i).zipIdx
+      let ks := ss.keys.filter fun k =>
+        let tombs := pre.filterMap fun (c, j) => match c with
+          | .append f (.ofRec r) => if r.key == k && r.val.isNone then some (j, f) else none
+          | _ => none
+        match tombs.getLast? with
+        | none => false
+        | some (t, f) =>
+          let unlinked := pre.any fun (c, j) => j > t && (match c with | .unlink g => g == f | _ => false)
+          let laterVal := pre.any fun (c, j) => j > t && (match c with
+            | .append _ (.ofRec r) => r.key == k && r.val.isSome
+            | _ => false)
+          unlinked && !laterVal
+      some (ss, s!"d3 {ks.length} " ++ ",".intercalate (ks.map hexTok))
     | _, _ => none
   | ["nohints"] =>
     let d : Disk := { ss.st.disk with hint := [] }
